@@ -10,7 +10,7 @@ import (
 	"golang.org/x/tools/go/ssa"
 )
 
-const maxInlineDepth = 4
+const maxInlineDepth = 8
 
 func (r *Run) call(st *State, fr *Frame, x *ssa.Call, b *ssa.BasicBlock, idx int, prev *ssa.BasicBlock) bool {
 	com := x.Common()
@@ -34,6 +34,31 @@ func (r *Run) call(st *State, fr *Frame, x *ssa.Call, b *ssa.BasicBlock, idx int
 	cont := func(st2 *State, res *Val) {
 		fr.regs[x] = res
 		r.execInstrs(st2, fr, b, idx+1, prev)
+	}
+	if fr.depth == 0 && fr.spec != nil {
+		for _, c := range fr.spec.Clauses {
+			if c.Kind != "at" {
+				continue
+			}
+			// at LABEL before call NAME
+			f := strings.Fields(c.Text)
+			if len(f) == 4 && f[1] == "before" && f[2] == "call" {
+				name := ""
+				if callee != nil {
+					name = callee.Name()
+				} else if com.IsInvoke() {
+					name = com.Method.Name()
+				}
+				if name == f[3] {
+					if _, dup := fr.snaps[f[0]]; !dup {
+						if fr.snaps == nil {
+							fr.snaps = map[string]*State{}
+						}
+						fr.snaps[f[0]] = st.clone()
+					}
+				}
+			}
+		}
 	}
 	if callee != nil {
 		origin := callee
@@ -137,6 +162,9 @@ func (r *Run) inlinable(fn *ssa.Function, fr *Frame) bool {
 	if fn.Blocks == nil || fr.depth >= maxInlineDepth {
 		return false
 	}
+	if !strings.HasPrefix(fnPkgPath(fn), modPath) {
+		return false // code outside the repository is never executed: contract or havoc
+	}
 	for f := fr; f != nil; f = f.parent {
 		if f.fn == fn {
 			return false // recursion
@@ -178,7 +206,7 @@ func (r *Run) inline(st *State, fr *Frame, fn *ssa.Function, spec *FuncSpec, cs 
 		}
 	}
 	nf.entry = st.clone()
-	nf.ret = cont
+	nf.ret = func(_ *Frame, st2 *State, res *Val) { cont(st2, res) }
 	r.execBlock(st, nf, fn.Blocks[0], nil)
 }
 
@@ -192,7 +220,7 @@ func (r *Run) coerceArg(a *Val, pt types.Type, te TypeEnv) *Val {
 // havocCall models a call about which nothing is known.
 func (r *Run) havocCall(st *State, fr *Frame, x *ssa.Call, what string, args []*Val) {
 	r.note("call without contract havocs the heap: " + what + " (from " + fr.fn.Name() + ")")
-	st.havocAll()
+	r.havocAllKeepingLocals(st, fr, args)
 	// local cells whose address was passed may change as well
 	for _, a := range args {
 		if a.A != nil && a.A.Kind == ALocal {
@@ -279,6 +307,7 @@ func (r *Run) applyContract(st *State, fr *Frame, x *ssa.Call, callee *ssa.Funct
 		res = freshVal(rt, "ret."+strings.Trim(cname, "()*"), cte)
 		res.T = rt
 	}
+	freshResult := spec.Has("freshresult")
 	// frame
 	comps, all := r.specWrites(spec)
 	if !spec.Has("pure") {
@@ -287,7 +316,7 @@ func (r *Run) applyContract(st *State, fr *Frame, x *ssa.Call, callee *ssa.Funct
 			if !hasMod {
 				r.note("contract of " + cname + " has no modifies clause: heap havocked at call")
 			}
-			st.havocAll()
+			r.havocAllKeepingLocals(st, fr, args)
 		} else {
 			st.bumpTop()
 			for c := range comps {
@@ -295,12 +324,28 @@ func (r *Run) applyContract(st *State, fr *Frame, x *ssa.Call, callee *ssa.Funct
 			}
 		}
 	}
+	if freshResult && len(res.L) == 1 && res.L[0].Sort == SInt {
+		res.L[0] = st.freshRef()
+	}
 	r.assumeWF(st, res, cte)
 	post := &SpecEnv{run: r, st: st, old: pre, cs: cs, te: cte, mode: "pre", vars: vars, fn: callee}
 	post.result = res
 	post = post.with(r.resultVars(spec, sig, res, cte))
+	for _, c := range spec.ClausesOf("set") {
+		post.assign(c.Lhs, post.eval(c.Expr))
+	}
 	for _, c := range spec.ClausesOf("ensures") {
-		st.assume(post.evalBool(c.Expr))
+		func() {
+			defer func() {
+				if rec := recover(); rec != nil {
+					if _, ok := rec.(skipClause); ok {
+						return // clause about callee-internal program points: not usable here (sound: fewer assumptions)
+					}
+					panic(rec)
+				}
+			}()
+			st.assume(post.evalBool(c.Expr))
+		}()
 	}
 	return res
 }
@@ -468,4 +513,45 @@ func (r *Run) copyOp(st *State, fr *Frame, x *ssa.Call) *Val {
 		st.heap[name] = Store(h, d.L[0], nw)
 	}
 	return &Val{T: x.Type(), L: []*Term{n}}
+}
+
+// havocAllKeepingLocals havocs the heap but keeps the contents of the executing frames' own
+// escaping local variables, unless a pointer to them (directly or through a closure) is handed
+// to the callee. (A callee cannot name a caller's local variable otherwise.)
+func (r *Run) havocAllKeepingLocals(st *State, fr *Frame, args []*Val) {
+	escaped := map[string]bool{}
+	var mark func(v *Val, depth int)
+	mark = func(v *Val, depth int) {
+		if v == nil || depth > 3 {
+			return
+		}
+		for _, l := range v.L {
+			if l.Sort == SInt {
+				escaped[l.String()] = true
+				if ci, ok := st.closure[l.String()]; ok {
+					for _, b := range ci.bindings {
+						mark(b, depth+1)
+					}
+				}
+			}
+		}
+	}
+	for _, a := range args {
+		mark(a, 0)
+	}
+	type saved struct {
+		b *localBox
+		v *Val
+	}
+	var keep []saved
+	for _, b := range st.boxes {
+		if escaped[b.addr.Ref.String()] {
+			continue
+		}
+		keep = append(keep, saved{b, r.load(st, b.addr, b.t, fr.te)})
+	}
+	st.havocAll()
+	for _, k := range keep {
+		r.store(st, k.b.addr, k.v, fr.te)
+	}
 }
